@@ -68,3 +68,4 @@ META = dict(
     design_ref="DESIGN.md §4 C03",
     technique="CBMC bounded symbolic execution of real writer code, output checked by an independent format decoder, SAT",
 )
+META["text"] += ' Block compressor contract now also for gzip (strategy search) and xz (filter search); fragment blocks are always stored.'
